@@ -16,9 +16,16 @@ Variable w : rworld.
 Variable o : ropts.
 Hypothesis Hwf : wf (lw w).
 Hypothesis Hnox : o_x o = false.
-Hypothesis Hsetups : forall l sc n, l_setup (spec_of w l) = Some sc -> script_at sc n = HOk.
 Hypothesis Htests : forall b, In b (tests w) -> t_layer b < nlayers (lw w).
 Variable t : nat.
+
+(* the set-up of layer l and of all its transitive bases succeeds at every attempt *)
+Definition good (l : nat) : Prop :=
+  forall x sc n, (x = l \/ tb (lw w) l x) -> l_setup (spec_of w x) = Some sc -> script_at sc n = HOk.
+Lemma good_base l b : good l -> In b (bases_of (lw w) l) -> good b.
+Proof.
+  intros Hg Hb x sc n Hx. apply Hg. right. destruct Hx as [->|Hx]; [now apply tb1 | eapply tbS; eauto].
+Qed.
 
 Lemma p_ev_ns l t' p : total (ns t) (p_ev w l t' p) = hit t t' * p_run p.
 Proof.
@@ -45,6 +52,8 @@ Proof.
 Qed.
 
 Definition c (l : nat) : nat := cnt_in t (tests_of w l).
+(* layers that own test t have good set-ups; the others may fail in any way *)
+Hypothesis Hgood : forall l, c l = 0 \/ good l.
 
 Lemma repeat_loop_ns : forall n l p,
   total (ns t) (ps_ev (repeat_loop w o n l p)) = total (ns t) (ps_ev p) + n * c l.
@@ -69,27 +78,41 @@ Proof.
   unfold p1. cbn [fst pemit ps_ev]. rewrite !total_app. simpl. rewrite F1, F2. lia.
 Qed.
 
-Lemma setup_layer_ns : forall fuel l p, l < fuel ->
-  snd (setup_layer w fuel l p) = false /\
+Lemma setup_layer_quiet : forall fuel l p,
   total (ns t) (ps_ev (fst (setup_layer w fuel l p))) = total (ns t) (ps_ev p).
 Proof.
-  induction fuel as [|f IH]; intros l p Hl; [lia|]. cbn [setup_layer].
-  destruct (mem l (ps_setup p)); [split; reflexivity|].
+  induction fuel as [|f IH]; intros l p; [reflexivity|]. cbn [setup_layer].
+  destruct (mem l (ps_setup p)); [reflexivity|].
   set (F := fun (acc : pstate * bool) b => let '(q, x) := acc in if x then (q, x) else setup_layer w f b q).
-  assert (Hfold : forall bs q, (forall b, In b bs -> b < f) ->
-            snd (fold_left F bs (q, false)) = false /\
-            total (ns t) (ps_ev (fst (fold_left F bs (q, false)))) = total (ns t) (ps_ev q)).
-  { induction bs as [|b bs IHb]; intros q Hb; simpl; [split; reflexivity|].
-    destruct (IH b q (Hb b (or_introl eq_refl))) as [E1 E2].
-    destruct (setup_layer w f b q) as [q1 x1]. simpl in E1, E2. subst x1.
-    destruct (IHb q1 (fun b' Hb' => Hb b' (or_intror Hb'))) as [G1 G2]. split; [exact G1 | congruence]. }
-  destruct (Hfold (bases_of (lw w) l) p) as [G1 G2].
-  { intros b Hb. specialize (Hwf l b Hb). lia. }
-  destruct (fold_left F (bases_of (lw w) l) (p, false)) as [p1 exc]. simpl in G1, G2. subst exc.
-  assert (Hout : match l_setup (spec_of w l) with None => HOk | Some sc => script_at sc (cnt l (ps_att_su p1)) end = HOk).
-  { destruct (l_setup (spec_of w l)) as [sc|] eqn:E; [apply (Hsetups l sc _ E) | reflexivity]. }
-  rewrite Hout. cbn [fst snd ps_ev]. split; [reflexivity|]. rewrite total_app. simpl. lia.
+  assert (Hfold : forall bs q x, total (ns t) (ps_ev (fst (fold_left F bs (q, x)))) = total (ns t) (ps_ev q)).
+  { induction bs as [|b bs IHb]; intros q x; simpl; [reflexivity|].
+    destruct x; [apply IHb|]. specialize (IH b q). destruct (setup_layer w f b q) as [q1 x1]. simpl in IH.
+    rewrite IHb. exact IH. }
+  specialize (Hfold (bases_of (lw w) l) p false).
+  destruct (fold_left F (bases_of (lw w) l) (p, false)) as [p1 exc]. simpl in Hfold.
+  destruct exc; [exact Hfold|]. cbn [fst ps_ev]. rewrite total_app. simpl. lia.
 Qed.
+
+Lemma setup_layer_good : forall fuel l p, l < fuel -> good l -> snd (setup_layer w fuel l p) = false.
+Proof.
+  induction fuel as [|f IH]; intros l p Hl Hg; [lia|]. cbn [setup_layer].
+  destruct (mem l (ps_setup p)); [reflexivity|].
+  set (F := fun (acc : pstate * bool) b => let '(q, x) := acc in if x then (q, x) else setup_layer w f b q).
+  assert (Hfold : forall bs q, (forall b, In b bs -> b < f /\ good b) -> snd (fold_left F bs (q, false)) = false).
+  { induction bs as [|b bs IHb]; intros q Hb; simpl; [reflexivity|].
+    destruct (Hb b (or_introl eq_refl)) as [B1 B2]. specialize (IH b q B1 B2).
+    destruct (setup_layer w f b q) as [q1 x1]. simpl in IH. subst x1.
+    apply IHb. intros b' Hb'. apply Hb. now right. }
+  pose proof (Hfold (bases_of (lw w) l) p) as G1.
+  destruct (fold_left F (bases_of (lw w) l) (p, false)) as [p1 exc]. simpl in G1. rewrite G1.
+  2:{ intros b Hb. split; [specialize (Hwf l b Hb); lia | eapply good_base; eauto]. }
+  assert (Hout : match l_setup (spec_of w l) with None => HOk | Some sc => script_at sc (cnt l (ps_att_su p1)) end = HOk).
+  { destruct (l_setup (spec_of w l)) as [sc|] eqn:E; [apply (Hg l sc _ (or_introl eq_refl) E) | reflexivity]. }
+  rewrite Hout. reflexivity.
+Qed.
+
+Lemma repeat_loop_quiet0 : forall n l p, c l = 0 -> total (ns t) (ps_ev (repeat_loop w o n l p)) = total (ns t) (ps_ev p).
+Proof. intros n l p H. rewrite repeat_loop_ns, H. lia. Qed.
 
 Lemma run_layer_ns l p : l < nlayers (lw w) ->
   total (ns t) (ps_ev (fst (run_layer w o l p))) =
@@ -100,9 +123,12 @@ Proof.
                 (rev (order_by_bases (lw w) (filter (fun x => negb (mem x (gather_layers (lw w) l))) (ps_setup p)))) false p) as Ht.
   destruct (td_loop w _ false p) as [p1 cannot]. simpl in Ht.
   destruct cannot; [simpl; lia|].
-  destruct (setup_layer_ns (S (nlayers (lw w))) l p1) as [S1 S2]; [lia|].
-  destruct (setup_layer w (S (nlayers (lw w))) l p1) as [p2 exc]. simpl in S1, S2. subst exc.
-  cbn [fst snd]. rewrite repeat_loop_ns. cbn [ps_ev]. lia.
+  pose proof (setup_layer_quiet (S (nlayers (lw w))) l p1) as S2.
+  pose proof (setup_layer_good (S (nlayers (lw w))) l p1) as S1.
+  destruct (setup_layer w (S (nlayers (lw w))) l p1) as [p2 exc]. simpl in S1, S2.
+  destruct exc.
+  - cbn [fst snd ps_ev]. destruct (Hgood l) as [H0|Hg]; [rewrite H0; lia|]. specialize (S1 ltac:(lia) Hg). discriminate.
+  - cbn [fst snd]. rewrite repeat_loop_ns. cbn [ps_ev]. lia.
 Qed.
 
 Lemma parent_loop_ns : forall ls p ran n, (forall l, In l ls -> l < nlayers (lw w)) ->
@@ -233,25 +259,46 @@ Proof.
   intros b Hb. apply Hgen. now left.
 Qed.
 
-(* C03, whole run *)
-Theorem each_test_started_once_per_iteration :
-  starts_of (run w o) = if Nat.ltb t (length (tests w)) then reps o else 0.
+Lemma sum_c : sum_over c (ordered_layers w) = if Nat.ltb t (length (tests w)) then 1 else 0.
 Proof.
-  rewrite run_starts.
   destruct (nth_error (tests w) t) as [b|] eqn:En.
   - assert (Hlt : t < length (tests w)) by (apply nth_error_Some; congruence).
     apply Nat.ltb_lt in Hlt. rewrite Hlt.
-    assert (Hsum : sum_over c (ordered_layers w) = 1).
-    { assert (Heq : sum_over c (ordered_layers w) = sum_over (fun l => if Nat.eqb (t_layer b) l then 1 else 0) (ordered_layers w)).
-      { induction (ordered_layers w) as [|l ls IH]; simpl; [reflexivity|]. rewrite IH, c_spec, En. reflexivity. }
-      rewrite Heq, sum_indicator by apply obb_nodup.
-      destruct (mem (t_layer b) (ordered_layers w)) eqn:Em; [reflexivity|]. exfalso. apply mem_false in Em. apply Em.
-      unfold ordered_layers. apply obb_in. apply lwt_in. eapply nth_error_In. exact En. }
-    rewrite Hsum. lia.
+    assert (Heq : sum_over c (ordered_layers w) = sum_over (fun l => if Nat.eqb (t_layer b) l then 1 else 0) (ordered_layers w)).
+    { induction (ordered_layers w) as [|l ls IH]; simpl; [reflexivity|]. rewrite IH, c_spec, En. reflexivity. }
+    rewrite Heq, sum_indicator by apply obb_nodup.
+    destruct (mem (t_layer b) (ordered_layers w)) eqn:Em; [reflexivity|]. exfalso. apply mem_false in Em. apply Em.
+    unfold ordered_layers. apply obb_in. apply lwt_in. eapply nth_error_In. exact En.
   - assert (Hge : length (tests w) <= t) by (apply nth_error_None; exact En).
     assert (Hlt : Nat.ltb t (length (tests w)) = false) by (apply Nat.ltb_ge; exact Hge). rewrite Hlt.
-    assert (Hsum : sum_over c (ordered_layers w) = 0).
-    { induction (ordered_layers w) as [|l ls IH]; simpl; [reflexivity|]. rewrite IH, c_spec, En. reflexivity. }
-    rewrite Hsum. lia.
+    induction (ordered_layers w) as [|l ls IH]; simpl; [reflexivity|]. rewrite IH, c_spec, En. reflexivity.
 Qed.
+
+Theorem starts_core : starts_of (run w o) = if Nat.ltb t (length (tests w)) then reps o else 0.
+Proof. rewrite run_starts, sum_c. destruct (Nat.ltb t (length (tests w))); lia. Qed.
 End O.
+
+(* C03, whole run: a selected test whose layer stack can be set up is started exactly `reps` times, counted over
+   all processes — whatever any test does, whatever other layers' setUp or any layer's tearDown does … *)
+Theorem each_test_started_once_per_iteration w o :
+  wf (lw w) -> o_x o = false -> (forall b, In b (tests w) -> t_layer b < nlayers (lw w)) ->
+  forall t b, nth_error (tests w) t = Some b -> good w (t_layer b) ->
+  starts_of t (run w o) = reps o.
+Proof.
+  intros Hwf Hnox Htests t b En Hg.
+  rewrite (starts_core w o Hwf Hnox Htests t).
+  - assert (Hlt : t < length (tests w)) by (apply nth_error_Some; congruence). apply Nat.ltb_lt in Hlt. now rewrite Hlt.
+  - intros l. rewrite (c_spec w t l), En. destruct (Nat.eqb (t_layer b) l) eqn:E; [right | now left].
+    apply Nat.eqb_eq in E. subst l. exact Hg.
+Qed.
+
+(* … and nothing that is not a selected test is ever started. *)
+Theorem no_other_test_started w o :
+  wf (lw w) -> o_x o = false -> (forall b, In b (tests w) -> t_layer b < nlayers (lw w)) ->
+  forall t, length (tests w) <= t -> starts_of t (run w o) = 0.
+Proof.
+  intros Hwf Hnox Htests t Hge.
+  rewrite (starts_core w o Hwf Hnox Htests t).
+  - assert (Hlt : Nat.ltb t (length (tests w)) = false) by (apply Nat.ltb_ge; exact Hge). now rewrite Hlt.
+  - intros l. left. rewrite (c_spec w t l). apply nth_error_None in Hge. now rewrite Hge.
+Qed.
